@@ -214,6 +214,8 @@ class History:
                 st, en = r.randint(0, self.minconf + 2), r.randint(1, 4)
             if getattr(self, 'dense', False):
                 st, en = self.minconf + r.randint(0, 2), r.randint(3, 5)     # 5-10 tickets each: more tickets than winners
+            if st + en == 0 and r.random() < 0.85:
+                en = 1      # an allocation of zero tickets makes the whole batch fail (since F10): keep that rare
             return [u, st, en, int(r.random() < 0.35)]
         if v == 'gt2':
             cnt = r.choice([0, 1, 2, 3, 4, 5, 6, 6, 12 if big else 3])
@@ -238,6 +240,8 @@ class History:
                 infos += [g, mc]
             return [u, cnt, k] + infos
         cnt = r.choice([0, 1, 1, 2, 3, 4, 5, 8]) * (4 if big and r.random() < 0.4 else 1)
+        if cnt == 0 and r.random() < 0.8:
+            cnt = 1         # zero-ticket allocations are rejected (since F10): keep them rare
         return [u, cnt]
 
     def add_tickets(self, users, caller=OWNER):
